@@ -743,11 +743,11 @@ Definition log_le (lg lg1 : log) : Prop :=
   (forall t, rotated lg1 t = false -> rotated lg t = false).
 Lemma log_le_refl : forall lg, log_le lg lg.
 Proof. intros; split; [|split]; intros; auto; lia. Qed.
-Lemma log_le_appr : forall lg e, log_le lg (mkLog (e :: l_appr lg) (l_decl lg) (l_conf lg) (l_rot lg) (l_req lg)).
+Lemma log_le_appr : forall lg e, log_le lg (mkLog (e :: l_appr lg) (l_decl lg) (l_conf lg) (l_rot lg) (l_req lg) (l_alias lg) (l_same lg)).
 Proof. intros; split; [|split]; simpl; intros; auto. apply count_appr_cons_ge. Qed.
-Lemma log_le_decl : forall lg e, log_le lg (mkLog (l_appr lg) (e :: l_decl lg) (l_conf lg) (l_rot lg) (l_req lg)).
+Lemma log_le_decl : forall lg e, log_le lg (mkLog (l_appr lg) (e :: l_decl lg) (l_conf lg) (l_rot lg) (l_req lg) (l_alias lg) (l_same lg)).
 Proof. intros; split; [|split]; simpl; intros; auto. lia. Qed.
-Lemma log_le_conf : forall lg e, log_le lg (mkLog (l_appr lg) (l_decl lg) (e :: l_conf lg) (l_rot lg) (l_req lg)).
+Lemma log_le_conf : forall lg e, log_le lg (mkLog (l_appr lg) (l_decl lg) (e :: l_conf lg) (l_rot lg) (l_req lg) (l_alias lg) (l_same lg)).
 Proof. intros; split; [|split]; simpl; intros; auto; [lia|]. apply in2_cons; assumption. Qed.
 
 Lemma mark_get_cons_mono : forall f t h e l, mark_get f t h l <> None -> mark_get f t h (e :: l) <> None.
@@ -794,7 +794,7 @@ Proof. intros lg s s' M E f t h R X. rewrite E. exact (M f t h R X). Qed.
 Lemma log_marks_cons : forall lg s s' e, log_marks lg s -> marks s' = e :: marks s -> log_marks lg s'.
 Proof. intros lg s s' e M E f t h R X. rewrite E. apply mark_get_cons_mono. exact (M f t h R X). Qed.
 Lemma log_marks_appr : forall lg s s' f t h x, log_marks lg s -> marks s' = (f, t, h, x) :: marks s ->
-  log_marks (mkLog ((f, t, h) :: l_appr lg) (l_decl lg) (l_conf lg) (l_rot lg) (l_req lg)) s'.
+  log_marks (mkLog ((f, t, h) :: l_appr lg) (l_decl lg) (l_conf lg) (l_rot lg) (l_req lg) (l_alias lg) (l_same lg)) s'.
 Proof.
   intros lg s s' f t h x M E f' t' h' R X. simpl in X. rewrite E.
   apply orb_prop in X. destruct X as [X|X].
@@ -804,7 +804,7 @@ Proof.
   - apply mark_get_cons_mono. apply (M f' t' h' R). rewrite X. apply orb_true_r.
 Qed.
 Lemma log_marks_decl : forall lg s s' f t h x, log_marks lg s -> marks s' = (f, t, h, x) :: marks s ->
-  log_marks (mkLog (l_appr lg) ((f, t, h) :: l_decl lg) (l_conf lg) (l_rot lg) (l_req lg)) s'.
+  log_marks (mkLog (l_appr lg) ((f, t, h) :: l_decl lg) (l_conf lg) (l_rot lg) (l_req lg) (l_alias lg) (l_same lg)) s'.
 Proof.
   intros lg s s' f t h x M E f' t' h' R X. simpl in X. rewrite E.
   apply orb_prop in X. destruct X as [X|X].
@@ -848,7 +848,26 @@ Definition residual (c : string) : bool :=
             "threshold:approve_rotated:nongenuine"; "threshold:approve_rotated:undercount";
             "threshold:confirm_rotated:nongenuine"; "threshold:confirm_rotated:undercount";
             "password:approve:requirement_dropped"; "password:confirm:requirement_dropped";
-            "password:approve_rotated:requirement_dropped"; "password:confirm_rotated:requirement_dropped"]%string.
+            "password:approve_rotated:requirement_dropped"; "password:confirm_rotated:requirement_dropped";
+            "vote_once:approve:same_person"; "vote_once:decline:same_person"; "vote_once:approve_rotated:same_person";
+            "vote_once:decline_rotated:same_person"; "vote_once:approve_alias:same_person"; "vote_once:decline_alias:same_person";
+            "vote_once:approve_alias"; "vote_once:decline_alias";
+            "threshold:approve_alias:nongenuine"; "threshold:approve_alias:undercount";
+            "threshold:confirm_alias:nongenuine"; "threshold:confirm_alias:undercount";
+            "password:approve_alias:requirement_dropped"; "password:confirm_alias:requirement_dropped"]%string.
+
+(* how the checker names the votes of an account: plainly, or marked as outside the guarantees *)
+Definition tainted_kind (k : string) : Prop :=
+  k = "approve_rotated"%string \/ k = "confirm_rotated"%string \/ k = "approve_alias"%string \/ k = "confirm_alias"%string.
+Lemma vote_kind_plain : forall lg t k, rotated lg t = false -> vote_kind lg t k = k.
+Proof.
+  intros lg t k R. unfold rotated in R. apply orb_false_elim in R. destruct R as [R1 R2]. unfold vote_kind. rewrite R1, R2. reflexivity.
+Qed.
+Lemma vote_kind_tainted : forall lg t k, rotated lg t = true -> vote_kind lg t k = (k ++ "_rotated")%string \/ vote_kind lg t k = (k ++ "_alias")%string.
+Proof.
+  intros lg t k R. unfold vote_kind. destruct (existsb (Z.eqb t) (l_rot lg)) eqn:R1; [left; reflexivity|].
+  unfold rotated in R. rewrite R1 in R. simpl in R. rewrite R. right. reflexivity.
+Qed.
 
 Lemma residual_key : forall a b, residual (cl3 "key" a b) = true.
 Proof. intros. unfold residual, cl3. simpl. reflexivity. Qed.
@@ -982,31 +1001,32 @@ Definition sound_step (n : nat) (lg : log) (s s' : state) (o : op) : Prop :=
   (forall c, In c (fst (op_clauses n lg s s s' o)) -> residual c = true) /\ Inv (snd (op_clauses n lg s s s' o)) s'.
 
 Lemma release_clauses_ok : forall lg s t h tx V kind,
-  (rotated lg t = false /\ 0 <= V /\ V <= count_appr t h (l_appr lg) /\
+  (rotated lg t = false /\ (kind = "approve"%string \/ kind = "confirm"%string) /\ 0 <= V /\ V <= count_appr t h (l_appr lg) /\
    (forall st, a_set (getA s t) = Some st -> s_en st = true -> 0 < n_cust (getA s t) ->
       exists c, a_cust (getA s t) = Some c /\ 0 < map_len c /\ s_mode st <= Z.quot (V * 100) (map_len c)))
-  \/ kind = "approve_rotated"%string \/ kind = "confirm_rotated"%string ->
-  kind = "approve"%string \/ kind = "confirm"%string \/ kind = "approve_rotated"%string \/ kind = "confirm_rotated"%string ->
+  \/ tainted_kind kind ->
   (forall st, a_set (getA s t) = Some st -> s_pwd st = true -> in2 t h (l_conf lg) = true) ->
   forall x, In x (release_clauses lg s t h tx V kind) -> residual x = true.
 Proof.
-  intros lg s t h tx V kind HT HK0 HP x Hin.
+  intros lg s t h tx V kind HT HP x Hin.
+  assert (HK0 : kind = "approve"%string \/ kind = "confirm"%string \/ tainted_kind kind).
+  { destruct HT as [(_ & [K|K] & _)|K]; auto. }
   unfold release_clauses in Hin. cbv zeta in Hin.
   apply in_app_or in Hin. destruct Hin as [Hin|Hin].
-  - destruct HT as [(Hr & HV & Hcnt & HC)|HK].
+  - destruct HT as [(Hr & _ & HV & Hcnt & HC)|HK].
     + exfalso. unfold guarded in Hin. destruct (a_set (getA s t)) as [st|] eqn:Hs; [|destruct Hin].
       destruct (s_en st) eqn:He; [|destruct Hin]. simpl andb in Hin.
       destruct (0 <? n_cust (getA s t)) eqn:Hnc; [|destruct Hin].
       destruct (HC st eq_refl He ltac:(apply Z.ltb_lt; exact Hnc)) as (c & Hc & Hn & Hm).
       rewrite (threshold_ok (s_mode st) V (map_len c) (n_cust (getA s t)) (count_appr t h (l_appr lg))) in Hin; auto.
       split; [apply n_cust_nonneg|apply n_cust_le_map_len; assumption].
-    + destruct HK; subst kind; lit_res.
+    + destruct HK as [->|[->|[->| ->]]]; lit_res.
   - apply in_app_or in Hin. destruct Hin as [Hin|Hin].
     + destruct (in2 t h (l_conf lg)) eqn:Ei; simpl negb in Hin; cbv iota in Hin; [destruct Hin|].
       unfold flag in Hin. destruct (a_set (getA s t)) as [st|] eqn:Hs.
       * destruct (s_pwd st) eqn:Hw; [pose proof (HP st eq_refl Hw) as Y; congruence|].
-        destruct HK0 as [->|[->|[->| ->]]]; lit_res.
-      * destruct HK0 as [->|[->|[->| ->]]]; lit_res.
+        destruct HK0 as [->|[->|[->|[->|[->| ->]]]]]; lit_res.
+      * destruct HK0 as [->|[->|[->|[->|[->| ->]]]]]; lit_res.
     + eapply wl_lim_custody_residual; eauto.
 Qed.
 
@@ -1016,12 +1036,19 @@ Lemma approve_inv : forall lg lg1 s s' f t h p tx p',
   marks s' = (f, t, h, 1) :: marks s -> pool_of s' t = Some p' -> (forall u, u <> t -> pool_of s' u = pool_of s u) ->
   (forall u, a_stat (getA s' u) = a_stat (getA s u)) ->
   p' = pool_del h p \/ p' = pool_set h (tx_votes tx (t_votes tx + 1)) p ->
-  lg1 = mkLog ((f, t, h) :: l_appr lg) (l_decl lg) (l_conf lg) (l_rot lg) (l_req lg) \/ (lg1 = lg /\ rotated lg t = true) ->
+  lg1 = mkLog ((f, t, h) :: l_appr lg) (l_decl lg) (l_conf lg) (l_rot lg) (l_req lg) (l_alias lg) (l_same lg)
+  \/ ((lg1 = lg \/ lg1 = mkLog (l_appr lg) (l_decl lg) (l_conf lg) (l_rot lg) (l_req lg) (l_alias lg) (t :: l_same lg)) /\ rotated lg1 t = true) ->
   Inv lg1 s'.
 Proof.
   intros lg lg1 s s' f t h p tx p' I Hp Hg Mk Pt Po St Hp' Hl. pose proof I as (I1 & I2 & I3 & I4).
-  assert (LE : log_le lg lg1) by (destruct Hl as [->|[-> _]]; [apply log_le_appr|apply log_le_refl]).
-  assert (LM : log_marks lg1 s') by (destruct Hl as [->|[-> _]]; [eapply log_marks_appr; eauto|eapply log_marks_cons; eauto]).
+  assert (LE : log_le lg lg1).
+  { destruct Hl as [->|[[->| ->] _]]; [apply log_le_appr|apply log_le_refl|].
+    split; [|split]; simpl; intros; auto; [lia|]. unfold rotated in *. simpl in H. apply orb_false_elim in H. destruct H as [H1 H2].
+    apply orb_false_elim in H2. destruct H2 as [_ H2]. rewrite H1, H2. reflexivity. }
+  assert (LM : log_marks lg1 s').
+  { destruct Hl as [->|[[->| ->] _]]; [eapply log_marks_appr; eauto|eapply log_marks_cons; eauto|].
+    intros f' t' h' R X. simpl in X. rewrite Mk. apply mark_get_cons_mono. apply (I1 f' t' h'); [|exact X].
+    destruct LE as (_ & _ & L3). exact (L3 t' R). }
   apply (Inv_pool_update lg lg1 s s' t p' I LE LM Pt Po); [|exact St].
   intros h' tx' Q.
   assert (Cf : forall y, pool_get h' p = Some y -> t_conf y = true -> in2 t h' (l_conf lg1) = true).
@@ -1032,9 +1059,17 @@ Proof.
   - apply pool_get_del_some in Q. split; [exact (Vt tx' Q)|exact (Cf tx' Q)].
   - rewrite pool_get_set in Q. destruct (String.eqb h' h) eqn:Eh.
     + apply String.eqb_eq in Eh; subst h'. inversion Q; subst tx'. unfold tx_votes. cbn [t_votes t_conf]. split; [|exact (Cf tx Hg)].
-      intros R. destruct Hl as [->|[-> Hr]]; [|simpl in R; congruence].
-      simpl l_appr. rewrite count_appr_cons_hit. simpl in R. destruct (I2 t p h tx R Hp Hg) as [A B]. lia.
+      intros R. destruct Hl as [->|[_ Hr]]; [|congruence].
+      simpl l_appr. rewrite count_appr_cons_hit. assert (R0 : rotated lg t = false) by exact R. destruct (I2 t p h tx R0 Hp Hg) as [A B]. lia.
     + split; [exact (Vt tx' Q)|exact (Cf tx' Q)].
+Qed.
+
+Lemma rotated_cons2 : forall lg a nw t x y z q al,
+  rotated (mkLog x y z (a :: nw :: l_rot lg) q al (l_same lg)) t = false -> t <> a /\ t <> nw /\ rotated lg t = false.
+Proof.
+  intros lg a nw t x y z q al R. unfold rotated in *. simpl in R.
+  apply orb_false_elim in R. destruct R as [R R3]. apply orb_false_elim in R. destruct R as [R1 R]. apply orb_false_elim in R. destruct R as [R2 R].
+  rewrite R, R3. repeat split; [lia|lia].
 Qed.
 
 Section Sound.
@@ -1071,17 +1106,43 @@ Proof.
   assert (Hq : 0 <= Z.quot r0 (map_len c) <= Z.max 0 r0) by (split; [clear - Eq; lia|apply quot_bound; [exact Hn|clear - Eq; lia]]).
   pose proof (send_reward_bound _ _ _ _ _ _ _ E1 Hq) as B1.
   set (h := to_lower hraw) in *.
-  set (lgc := mkLog ((f, t, h) :: l_appr lg) (l_decl lg) (l_conf lg) (l_rot lg) (l_req lg)).
-  unfold sound_step, op_clauses. cbv zeta. fold h. rewrite Hisc. simpl negb. simpl andb.
-  (* the log after the step, whatever the case *)
-  assert (HL : forall vt, vt = true ->
-     let lg1 := (if negb (in3 f t h (l_appr lg) || in3 f t h (l_decl lg)) && vt then lgc else lg) in
-     (lg1 = lgc \/ (lg1 = lg /\ rotated lg t = true)) /\
-     (forall x, In x (if (in3 f t h (l_appr lg) || in3 f t h (l_decl lg)) && vt then [cl "vote_once" (if rotated lg t then "approve_rotated" else "approve")] else []) -> residual x = true)).
-  { intros vt ->. cbv zeta. destruct (in3 f t h (l_appr lg) || in3 f t h (l_decl lg)) eqn:Hd; simpl.
+  set (lgc := mkLog ((f, t, h) :: l_appr lg) (l_decl lg) (l_conf lg) (l_rot lg) (l_req lg) (l_alias lg) (l_same lg)).
+  set (lgs := mkLog (l_appr lg) (l_decl lg) (l_conf lg) (l_rot lg) (l_req lg) (l_alias lg) (t :: l_same lg)).
+  set (dup := in3 f t h (l_appr lg) || in3 f t h (l_decl lg)).
+  set (lg1 := if negb dup then (if negb dup && same_person lg f t h then lgs else lgc) else lg).
+  (* the log after the step, and the vote clauses *)
+  assert (HL : (lg1 = lgc \/ ((lg1 = lg \/ lg1 = lgs) /\ rotated lg1 t = true)) /\
+               (forall x, In x ((if dup then [cl "vote_once" (vote_kind lg t "approve")] else []) ++
+                                (if negb dup && same_person lg f t h then [cl3 "vote_once" (vote_kind lg t "approve") "same_person"] else [])) -> residual x = true)).
+  { unfold lg1. destruct dup eqn:Hd; simpl negb; simpl andb; cbv iota.
     - destruct (rotated lg t) eqn:Hr; [|exfalso; exact (I1 _ _ _ Hr Hd Hm)].
-      split; [right; auto|]. intros x [<-|[]]. reflexivity.
-    - split; [left; reflexivity|intros x []]. }
+      split; [right; split; [left; reflexivity|first [exact Hr|reflexivity]]|]. intros x Hx. rewrite app_nil_r in Hx. destruct Hx as [<-|[]].
+      destruct (vote_kind_tainted lg t "approve" Hr) as [-> | ->]; reflexivity.
+    - destruct (same_person lg f t h).
+      + split.
+        * right. split; [right; reflexivity|]. unfold rotated, lgs. simpl. rewrite Z.eqb_refl. simpl. apply orb_true_r.
+        * intros x [<-|[]]. destruct (rotated lg t) eqn:Hr.
+          -- destruct (vote_kind_tainted lg t "approve" Hr) as [-> | ->]; reflexivity.
+          -- rewrite (vote_kind_plain lg t "approve" Hr). reflexivity.
+      + split; [left; reflexivity|intros x []]. }
+  destruct HL as [HL1 HL2].
+  (* the clauses of a pay-out judged against the log after the step *)
+  assert (HR : forall x, In x (release_clauses lg1 s t h tx (t_votes tx + 1) (vote_kind lg1 t "approve")) ->
+               (forall st, a_set (getA s t) = Some st -> s_en st = true -> s_mode st <= Z.quot ((t_votes tx + 1) * 100) (map_len c)) ->
+               (forall st, a_set (getA s t) = Some st -> s_pwd st = true -> t_conf tx = true) -> residual x = true).
+  { intros x Hin HCm HPw.
+    apply (release_clauses_ok lg1 s t h tx (t_votes tx + 1) (vote_kind lg1 t "approve")); [| |exact Hin].
+    - destruct (rotated lg1 t) eqn:Hr1.
+      + right. destruct (vote_kind_tainted lg1 t "approve" Hr1) as [-> | ->]; unfold tainted_kind; auto.
+      + left. destruct HL1 as [HL1|[_ HL1]]; [|congruence].
+        assert (Hr : rotated lg t = false) by (rewrite HL1 in Hr1; exact Hr1).
+        destruct (I2 t p h tx Hr Hp Hg) as [Hv0 Hv1].
+        split; [reflexivity|]. split; [left; apply vote_kind_plain; exact Hr1|]. split; [clear - Hv0; lia|]. split.
+        * rewrite HL1. simpl l_appr. rewrite count_appr_cons_hit. clear - Hv1. lia.
+        * intros st Hs He _. exists c. split; [exact Hc|]. split; [exact Hn|]. exact (HCm st Hs He).
+    - intros st Hs Hw. assert (Y : in2 t h (l_conf lg) = true) by exact (I3 t p h tx Hp Hg (HPw st Hs Hw)).
+      destruct HL1 as [->|[[->| ->] _]]; exact Y. }
+  unfold sound_step, op_clauses. cbv zeta. fold h. rewrite Hisc. simpl negb. simpl andb. fold dup.
   match type of E with (if ?b then _ else _) = _ => destruct b eqn:Eb end.
   - (* paid out *)
     destruct (send (add_mark s1 f t h 1) (t_from tx) (t_to tx) (t_amt tx)) as [s3| |] eqn:E3; try discriminate.
@@ -1095,23 +1156,13 @@ Proof.
     { intros u. rewrite stat_store_pool, (proj2 (send_frame _ _ _ _ _ E3 u)), add_mark_frame, (proj2 (send_frame _ _ _ _ _ E1 u)). reflexivity. }
     pose proof (released_gone s (store_pool s3 t (pool_del h p)) t h p tx (pool_del h p) Hp Hg (pool_of_store_same _ _ _) (pool_get_del_same _ _)) as Rl.
     assert (Pd : paid_without_release s (store_pool s3 t (pool_del h p)) t h = false) by (unfold paid_without_release; rewrite Rl; reflexivity).
-    rewrite (voted_cons _ _ _ Mk), Pd, Rl. rewrite !andb_true_r.
-    destruct (HL true eq_refl) as [HL1 HL2]. rewrite andb_true_r in HL1, HL2.
-    set (lg1 := if negb (in3 f t h (l_appr lg) || in3 f t h (l_decl lg)) then lgc else lg) in *.
+    rewrite (voted_cons _ _ _ Mk), Pd, Rl. rewrite !andb_true_r. simpl negb. simpl andb. fold lg1.
     simpl fst. simpl snd. split.
-    + intros x Hin. apply in_app_or in Hin. destruct Hin as [Hin|Hin]; [exact (HL2 x Hin)|]. simpl app in Hin.
-      apply (release_clauses_ok lg1 s t h tx (t_votes tx + 1) (if rotated lg t then "approve_rotated" else "approve")); [| | |exact Hin].
-      2:{ destruct (rotated lg t); auto. }
-      * destruct (rotated lg t) eqn:Hr; [right; left; reflexivity|left].
-        destruct HL1 as [HL1|[_ HL1]]; [|congruence]. destruct (I2 t p h tx Hr Hp Hg) as [Hv0 Hv1].
-        split; [rewrite HL1; exact Hr|]. split; [clear - Hv0; lia|]. split.
-        -- rewrite HL1. simpl l_appr. rewrite count_appr_cons_hit. clear - Hv1. lia.
-        -- intros st Hs He _. exists c. split; [exact Hc|]. split; [exact Hn|]. rewrite Hs, He in Eb.
-           assert (X : 0 <? map_len c = true) by (apply Z.ltb_lt; exact Hn). rewrite X in Eb. simpl andb in Eb.
-           apply andb_prop in Eb. destruct Eb as [Eb _]. apply Z.leb_le in Eb. exact Eb.
-      * intros st Hs Hw. rewrite Hs, Hw in Eb. apply andb_prop in Eb. destruct Eb as [_ Eb].
-        assert (Y : in2 t h (l_conf lg) = true) by exact (I3 t p h tx Hp Hg Eb).
-        destruct HL1 as [->|[-> _]]; exact Y.
+    + intros x Hin. rewrite app_assoc in Hin. apply in_app_or in Hin. destruct Hin as [Hin|Hin]; [exact (HL2 x Hin)|]. simpl app in Hin.
+      apply (HR x Hin).
+      * intros st Hs He. rewrite Hs, He in Eb. assert (X : 0 <? map_len c = true) by (apply Z.ltb_lt; exact Hn). rewrite X in Eb. simpl andb in Eb.
+        apply andb_prop in Eb. destruct Eb as [Eb _]. apply Z.leb_le in Eb. exact Eb.
+      * intros st Hs Hw. rewrite Hs, Hw in Eb. apply andb_prop in Eb. destruct Eb as [_ Eb]. exact Eb.
     + exact (approve_inv lg lg1 s (store_pool s3 t (pool_del h p)) f t h p tx (pool_del h p) I Hp Hg Mk (pool_of_store_same _ _ _) Po St (or_introl eq_refl) HL1).
   - (* counted, not yet paid out *)
     inversion E; subst s'. clear E.
@@ -1127,13 +1178,12 @@ Proof.
     { apply (released_present s (store_pool (add_mark s1 f t h 1) t (pool_set h tx1 p)) t h (pool_set h tx1 p) tx1 (pool_of_store_same _ _ _)). rewrite pool_get_set, String.eqb_refl. reflexivity. }
     assert (Pd : paid_without_release s (store_pool (add_mark s1 f t h 1) t (pool_set h tx1 p)) t h = false).
     { apply (paid_reward_only s (store_pool (add_mark s1 f t h 1) t (pool_set h tx1 p)) t h p tx rd r0 rr (Z.quot r0 (map_len c)) Hp Hg Hrw Hq). intros x d. rewrite bal_store_pool, add_mark_frame. apply B1. }
-    rewrite (voted_cons _ _ _ Mk), Pd, Rl. rewrite !andb_true_r.
-    destruct (HL true eq_refl) as [HL1 HL2]. rewrite andb_true_r in HL1, HL2.
-    set (lg1 := if negb (in3 f t h (l_appr lg) || in3 f t h (l_decl lg)) then lgc else lg) in *.
+    rewrite (voted_cons _ _ _ Mk), Pd, Rl. rewrite !andb_true_r. simpl negb. simpl andb. fold lg1.
     simpl fst. simpl snd. split.
-    + intros x Hin. apply in_app_or in Hin. destruct Hin as [Hin|Hin]; [exact (HL2 x Hin)|destruct Hin].
+    + intros x Hin. rewrite app_assoc in Hin. apply in_app_or in Hin. destruct Hin as [Hin|Hin]; [exact (HL2 x Hin)|destruct Hin].
     + exact (approve_inv lg lg1 s (store_pool (add_mark s1 f t h 1) t (pool_set h tx1 p)) f t h p tx (pool_set h tx1 p) I Hp Hg Mk (pool_of_store_same _ _ _) Po St (or_intror eq_refl) HL1).
 Qed.
+
 Lemma paid_nondec : forall s s' t h, (forall x, nondec s s' x) -> paid_without_release s s' t h = false.
 Proof.
   intros s s' t h N. unfold paid_without_release. destruct (released s s' t h); [reflexivity|].
@@ -1179,12 +1229,20 @@ Proof.
   assert (Pd : paid_without_release s s' t h = false).
   { apply (paid_reward_only s s' t h p tx rd r0 rr (Z.quot r0 (map_len c)) Hp Hg Hrw Hq). intros x d. apply B1. }
   unfold sound_step, op_clauses. cbv zeta. fold h. rewrite Hisc. simpl negb. simpl andb.
-  rewrite (voted_cons _ _ _ Mk), Pd, (released_same_pool s s' t h (Po t)). rewrite !andb_true_r. simpl app.
+  rewrite (voted_cons _ _ _ Mk), Pd, (released_same_pool s s' t h (Po t)). rewrite !andb_true_r. simpl app. rewrite !app_nil_r.
+  assert (SP : forall x, In x (if negb (in3 f t h (l_appr lg) || in3 f t h (l_decl lg)) && same_person lg f t h
+                               then [cl3 "vote_once" (vote_kind lg t "decline") "same_person"] else []) -> residual x = true).
+  { intros x Hx. destruct (negb (in3 f t h (l_appr lg) || in3 f t h (l_decl lg)) && same_person lg f t h); [|destruct Hx].
+    destruct Hx as [<-|[]]. destruct (rotated lg t) eqn:Hr.
+    - destruct (vote_kind_tainted lg t "decline" Hr) as [-> | ->]; reflexivity.
+    - rewrite (vote_kind_plain lg t "decline" Hr). reflexivity. }
   destruct (in3 f t h (l_appr lg) || in3 f t h (l_decl lg)) eqn:Hd; simpl negb; cbv iota.
   - destruct (rotated lg t) eqn:Hr; [|exfalso; exact (I1 _ _ _ Hr Hd Hm)].
-    simpl fst. simpl snd. split; [intros x [<-|[]]; reflexivity|].
-    exact (Inv_same_pools lg lg s s' I (log_le_refl _) (log_marks_cons _ _ _ _ I1 Mk) Po St).
-  - simpl fst. simpl snd. split; [intros x []|].
+    simpl fst. simpl snd. split.
+    + intros x Hin. simpl in Hin. destruct Hin as [<-|[]].
+      destruct (vote_kind_tainted lg t "decline" Hr) as [-> | ->]; reflexivity.
+    + exact (Inv_same_pools lg lg s s' I (log_le_refl _) (log_marks_cons _ _ _ _ I1 Mk) Po St).
+  - simpl fst. simpl snd. split; [intros x Hin; exact (SP x Hin)|].
     exact (Inv_same_pools lg _ s s' I (log_le_decl _ _) (log_marks_decl _ _ _ _ _ _ _ I1 Mk) Po St).
 Qed.
 
@@ -1198,9 +1256,9 @@ Proof.
   simpl andb in E. destruct (String.eqb pw (t_pw tx)) eqn:Epw; simpl negb in E; cbv iota in E; [|discriminate].
   simpl option_map in E.
   set (h := to_lower hraw) in *.
-  set (lg1 := mkLog (l_appr lg) (l_decl lg) ((t, h) :: l_conf lg) (l_rot lg) (l_req lg)).
+  set (lg1 := mkLog (l_appr lg) (l_decl lg) ((t, h) :: l_conf lg) (l_rot lg) (l_req lg) (l_alias lg) (l_same lg)).
   set (r := tx_conf tx true) in *.
-  set (kind := if rotated lg t then "confirm_rotated"%string else "confirm"%string).
+  set (kind := vote_kind lg t "confirm").
   unfold sound_step, op_clauses. cbv zeta. fold h. unfold pending. rewrite Hp, Hg, Epw. simpl orb. cbv iota. fold lg1. fold kind.
   match type of E with (match ?a with _ => _ end) = _ => destruct a as [allowC| |] eqn:EC; try discriminate end.
   match type of E with (match ?a with _ => _ end) = _ => destruct a as [allowP| |] eqn:EP; try discriminate end.
@@ -1223,11 +1281,11 @@ Proof.
     assert (Pd : paid_without_release s (store_pool s1 t (pool_del h p)) t h = false) by (unfold paid_without_release; rewrite Rl; reflexivity).
     rewrite Pd, Rl. simpl fst. simpl snd. split.
     + intros x Hin. simpl in Hin.
-      apply (release_clauses_ok lg1 s t h tx (t_votes tx) kind); [| | |exact Hin].
-      2:{ unfold kind. destruct (rotated lg t); auto. }
-      * unfold kind. destruct (rotated lg t) eqn:Hr; [right; right; reflexivity|left].
-        destruct (I2 t p h tx Hr Hp Hg) as [Hv0 Hv1].
-        split; [exact Hr|]. split; [exact Hv0|]. split; [exact Hv1|].
+      apply (release_clauses_ok lg1 s t h tx (t_votes tx) kind); [| |exact Hin].
+      * destruct (rotated lg t) eqn:Hr.
+        { right. unfold kind. destruct (vote_kind_tainted lg t "confirm" Hr) as [-> | ->]; unfold tainted_kind; auto. }
+        left. destruct (I2 t p h tx Hr Hp Hg) as [Hv0 Hv1].
+        split; [exact Hr|]. split; [right; unfold kind; apply vote_kind_plain; exact Hr|]. split; [exact Hv0|]. split; [exact Hv1|].
         intros st Hs He Hnc. rewrite Hs, He in EC.
         destruct (a_cust (getA s t)) as [c|] eqn:Hc; [|discriminate].
         pose proof (n_cust_le_map_len _ _ Hc) as Hle.
@@ -1476,13 +1534,6 @@ Proof.
   - destruct ((f =? f0) && (t =? t0) && String.eqb h h0); [reflexivity|exact IH].
 Qed.
 
-Lemma rotated_cons2 : forall lg a nw t x y z,
-  rotated (mkLog x y z (a :: nw :: l_rot lg) (ren2 a nw (l_req lg))) t = false -> t <> a /\ t <> nw /\ rotated lg t = false.
-Proof.
-  intros lg a nw t x y z R. unfold rotated in *. simpl in R.
-  apply orb_false_elim in R. destruct R as [R1 R]. apply orb_false_elim in R. destruct R as [R2 R]. repeat split; [lia|lia|exact R].
-Qed.
-
 Lemma sound_rotate : forall n lg s a nw ok s',
   Inv lg s -> handle v s (ORotate a nw ok) = Ok s' -> sound_step n lg s s' (ORotate a nw ok).
 Proof.
@@ -1521,14 +1572,14 @@ Proof.
     unfold B', A' in C7. cbn [a_bal] in C7.
     unfold mvo in C1, C2, C3, C4, C5, C6, Hin. cbv beta in C1, C2, C3, C4, C5, C6, Hin. rewrite C1, C2, C3, C4, C5, C6 in Hin. rewrite !bal_merge_get, !Z.eqb_refl in Hin. simpl in Hin. destruct Hin.
   - (* the invariant: the two accounts of the rotation are outside the vote guarantees from now on *)
-    set (lg' := mkLog (ren3 a nw (l_appr lg)) (ren3 a nw (l_decl lg)) (ren2 a nw (l_conf lg)) (a :: nw :: l_rot lg) (ren2 a nw (l_req lg))).
+    set (lg' := mkLog (ren3 a nw (l_appr lg)) (ren3 a nw (l_decl lg)) (ren2 a nw (l_conf lg)) (a :: nw :: l_rot lg) (ren2 a nw (l_req lg)) ((nw, a) :: l_alias lg) (l_same lg)).
     assert (Mo : forall f t h, t <> a -> t <> nw -> mark_get f t h (marks s') = mark_get f t h (marks s)).
     { intros f t h H1 H2. unfold s'. simpl marks. destruct (v_rot v); [apply mark_get_ren_other; assumption|reflexivity]. }
     split; [|split; [|split]].
-    + intros f t h R X. destruct (rotated_cons2 _ _ _ _ _ _ _ R) as (H1 & H2 & R0).
+    + intros f t h R X. destruct (rotated_cons2 _ _ _ _ _ _ _ _ _ R) as (H1 & H2 & R0).
       unfold lg' in X. simpl l_appr in X. simpl l_decl in X. rewrite !in3_ren_other in X by assumption.
       rewrite Mo by assumption. exact (I1 f t h R0 X).
-    + intros t p h tx R Q1 Q2. destruct (rotated_cons2 _ _ _ _ _ _ _ R) as (H1 & H2 & R0).
+    + intros t p h tx R Q1 Q2. destruct (rotated_cons2 _ _ _ _ _ _ _ _ _ R) as (H1 & H2 & R0).
       unfold pool_of in Q1. rewrite Go in Q1 by assumption. unfold lg'. simpl l_appr. rewrite count_ren_other by assumption.
       exact (I2 t p h tx R0 Q1 Q2).
     + intros t p h tx Q1 Q2 Q3. unfold lg'. simpl l_conf. unfold pool_of in Q1.
